@@ -274,7 +274,14 @@ def r3b_data_loop(repo: Repo, rep):
             for k, v in entries:
                 key, idx, mp = dump(k), dump(v.func.slice), dump(v.func.value)
                 over = getattr(v, "_iter_src", None) or (p.loopvars.get(key) if isinstance(k, ast.Name) else None)
-                good = key == idx and over is not None and dump(over) in (mp, f"{mp}.keys()", f"{mp}.items()")
+                same_key = key == idx
+                if isinstance(k, ast.JoinedStr):
+                    # renamed on the fly: f'{name}_left' — the name part is the subscript, the suffix names the same side as the mapping
+                    fv = [x for x in k.values if isinstance(x, ast.FormattedValue)]
+                    lit = "".join(x.value for x in k.values if isinstance(x, ast.Constant) and isinstance(x.value, str))
+                    side = [w for w in ("left", "right") if w in mp]
+                    same_key = len(fv) == 1 and dump(fv[0].value) == idx and (not side or side[0] in lit) and not any(w in lit for w in ("left", "right") if w not in side)
+                good = same_key and over is not None and dump(over) in (mp, f"{mp}.keys()", f"{mp}.items()")
                 rep.check(R, good, fi.site(p.ret_node), fi.fq, f"for f in {mp}: data[f] = {mp}[f](coords)", f"data[{key}] = {mp}[{idx}](..), {key} over {dump(over)}", f"data[{key}] = {mp}[{idx}] over {dump(over)}")
 
 
